@@ -248,6 +248,16 @@ macro_rules! define_slot {
             };
         }
 
+        /// evaluate `$body` (any value) with `$T` bound to the named generator type
+        macro_rules! with_kind_plain {
+            ($name:expr, $T:ident => $body:expr) => {
+                match $name {
+                    $( stringify!($t) => { type $T = $t; Some($body) } )*
+                    _ => None,
+                }
+            };
+        }
+
         /// construct a generator of the named kind with `$ctor` (a generic fn over `Gen`)
         macro_rules! with_kind {
             ($name:expr, $T:ident => $body:expr, else $other:expr) => {
@@ -636,6 +646,15 @@ where
                     _ => "unsupported".into(),
                 }
             }
+            ["race", kind, threads, iters, seed] => {
+                // shared-scratch detector (property C19): (A) a source that itself constructs a generator of the same type
+                // in the middle of delivering the seed bytes (re-entrancy), (B) truly concurrent constructions on several OS
+                // threads; every result is compared with the same construction done alone.  Prints ok / mismatch …
+                let (threads, iters) = match (num(threads), num(iters)) { (Some(a), Some(b)) => (a, b), _ => return "bad-op".into() };
+                let seed = match u64::from_str_radix(seed, 16) { Ok(v) => v, _ => return "bad-op".into() };
+                let r: Option<String> = with_kind_plain!(*kind, T => race::<T>(threads, iters, seed));
+                r.unwrap_or_else(|| "unsupported".into())
+            }
             ["jitnew"] => {
                 // the std constructor on the real clock: test_timer (or the cached rounds), set_rounds, one collection
                 match JitterRng::new() {
@@ -648,6 +667,88 @@ where
             _ => "bad-op".into(),
         }
     }
+}
+
+/// deterministic byte source (SplitMix64 stream) behind the infallible interface
+struct MixSrc(u64);
+impl MixSrc {
+    fn word(&mut self) -> u64 {
+        self.0 = self.0.wrapping_add(0x9e3779b97f4a7c15);
+        let mut z = self.0;
+        z = (z ^ (z >> 30)).wrapping_mul(0xbf58476d1ce4e5b9);
+        z = (z ^ (z >> 27)).wrapping_mul(0x94d049bb133111eb);
+        z ^ (z >> 31)
+    }
+}
+impl RngCore for MixSrc {
+    fn next_u32(&mut self) -> u32 { self.word() as u32 }
+    fn next_u64(&mut self) -> u64 { self.word() }
+    fn fill_bytes(&mut self, dst: &mut [u8]) {
+        for c in dst.chunks_mut(8) {
+            let w = self.word().to_le_bytes();
+            c.copy_from_slice(&w[..c.len()]);
+        }
+    }
+}
+/// a source that, in the middle of one fill_bytes call, constructs (and drops) another generator of type T from another source
+struct NestSrc<T: Gen> { inner: MixSrc, other: u64, _t: std::marker::PhantomData<T> }
+impl<T: Gen> RngCore for NestSrc<T> {
+    fn next_u32(&mut self) -> u32 { self.inner.next_u32() }
+    fn next_u64(&mut self) -> u64 { self.inner.next_u64() }
+    fn fill_bytes(&mut self, dst: &mut [u8]) {
+        let h = (dst.len() / 16) * 8;
+        let (a, b) = dst.split_at_mut(h);
+        self.inner.fill_bytes(a);
+        let mut o = MixSrc(self.other);
+        let mut g = T::from_rng(&mut o);
+        std::hint::black_box(g.next_u32());
+        self.inner.fill_bytes(b);
+    }
+}
+fn digest<T: Gen>(g: &mut T) -> u64 {
+    let mut d = 0u64;
+    for _ in 0..6 { d = d.rotate_left(13) ^ g.next_u64(); }
+    d
+}
+fn race<T: Gen>(threads: usize, iters: usize, seed: u64) -> String {
+    // (A) re-entrant source
+    for j in 0..8u64 {
+        let s = seed ^ (j.wrapping_mul(0x1234_5678_9abc_def1));
+        let mut plain = MixSrc(s);
+        let want = digest(&mut T::from_rng(&mut plain));
+        let mut nest = NestSrc::<T> { inner: MixSrc(s), other: s ^ 0x5555, _t: std::marker::PhantomData };
+        let got = digest(&mut T::from_rng(&mut nest));
+        if got != want {
+            return format!("mismatch reentrant-source j={} want={:016x} got={:016x}", j, want, got);
+        }
+    }
+    // (B) concurrent constructions
+    let expect: Vec<Vec<u64>> = (0..threads).map(|t| (0..iters).map(|i| {
+        let mut src = MixSrc(seed ^ ((t as u64) << 32) ^ i as u64);
+        digest(&mut T::from_rng(&mut src))
+    }).collect()).collect();
+    let barrier = std::sync::Arc::new(std::sync::Barrier::new(threads));
+    let hs: Vec<_> = (0..threads).map(|t| {
+        let b = barrier.clone();
+        std::thread::spawn(move || {
+            b.wait();
+            (0..iters).map(|i| {
+                let mut src = MixSrc(seed ^ ((t as u64) << 32) ^ i as u64);
+                digest(&mut T::from_rng(&mut src))
+            }).collect::<Vec<u64>>()
+        })
+    }).collect();
+    let mut bad = 0usize;
+    let mut first = String::new();
+    for (t, h) in hs.into_iter().enumerate() {
+        match h.join() {
+            Ok(v) => for (i, (a, b)) in v.iter().zip(expect[t].iter()).enumerate() {
+                if a != b { bad += 1; if first.is_empty() { first = format!("thread={} iter={} want={:016x} got={:016x}", t, i, b, a); } }
+            },
+            Err(_) => { bad += 1; if first.is_empty() { first = format!("thread={} panicked", t); } }
+        }
+    }
+    if bad == 0 { "ok".into() } else { format!("mismatch concurrent n={} first: {}", bad, first) }
 }
 
 fn clone_gen<F>(s: &Slot<F>) -> Option<Slot<F>> {
